@@ -96,11 +96,92 @@ def run_case(c):
                 out.close()
                 return {"ok": False, "exc": "Coroutine"}
             return {"ok": True, "dump": canon(plain(out)), "typed": typed(out)}
+        if op == "site":
+            out = SITES[c["site"]](c["data"])
+            return {"ok": True, "dump": canon(plain(out))}
         return {"ok": False, "exc": "BadOp"}
     except BaseException as e:  # noqa: BLE001 - the class of the exception is the observation
         if isinstance(e, (KeyboardInterrupt, SystemExit)):
             raise
         return {"ok": False, "exc": type(e).__name__, "msg": str(e)[:160]}
+
+
+# --------------------------------------------------------------------------- #
+# Library-side serialisers (C10): each driver builds the typed object(s) from wire data with every alias
+# populated, calls the library function and returns what would leave the process.
+# --------------------------------------------------------------------------- #
+def _run(coro):
+    import asyncio
+    return asyncio.run(coro)
+
+
+def _capture_send(module):
+    """Replace the module's send_message by a recorder; returns the record dict."""
+    rec = {}
+
+    async def fake_send_message(*a, **kw):
+        rec.update(kw)
+        return {"completion": {"values": []}}
+    module.send_message = fake_send_message
+    return rec
+
+
+def site_tool_result_to_dict(data):
+    from chuk_mcp.protocol.types.tools import tool_result_to_dict, ToolResult
+    return tool_result_to_dict(ToolResult.model_validate(data))
+
+
+def site_content_to_dict(data):
+    from chuk_mcp.protocol.types.content import content_to_dict, parse_content
+    return content_to_dict(parse_content(data))
+
+
+def site_elicitation_request(data):
+    from chuk_mcp.protocol.types.elicitation import ElicitationHandler, ElicitationParams
+    sent = []
+
+    class Stop(Exception):
+        pass
+
+    async def send(message):
+        sent.append(message)
+        raise Stop()
+
+    async def go():
+        h = ElicitationHandler(send)
+        try:
+            await h.request_user_input(ElicitationParams.model_validate(data), timeout=0.01)
+        except Stop:
+            pass
+    _run(go())
+    return sent[0]["params"]
+
+
+def site_roots_list_response(data):
+    from chuk_mcp.protocol.messages.roots.send_messages import handle_roots_list_request, Root
+    msg = _run(handle_roots_list_request([Root.model_validate(r) for r in data["roots"]], 7))
+    return msg.result
+
+
+def site_sampling_create(data):
+    import chuk_mcp.protocol.messages.sampling.send_messages as M
+    rec = _capture_send(M)
+    _run(M.send_sampling_create_message(None, None, [M.SamplingMessage.model_validate(m) for m in data["messages"]], 10,
+                                        model_preferences=M.ModelPreferences.model_validate(data["modelPreferences"])))
+    return rec["params"]
+
+
+def site_completion_complete(data):
+    import chuk_mcp.protocol.messages.completions.send_messages as M
+    rec = _capture_send(M)
+    _run(M.send_completion_complete(None, None, M.ResourceReference.model_validate(data["ref"]),
+                                    M.ArgumentInfo.model_validate(data["argument"])))
+    return rec["params"]
+
+
+SITES = {"tool_result_to_dict": site_tool_result_to_dict, "content_to_dict": site_content_to_dict,
+         "elicitation_request": site_elicitation_request, "roots_list_response": site_roots_list_response,
+         "sampling_create": site_sampling_create, "completion_complete": site_completion_complete}
 
 
 def build_arg(a):
